@@ -168,6 +168,7 @@ inline std::string apply_vary_params(const hz::Plan &p, PTree &prm, const std::s
         if (solver == "idrs") { if (r.chance(0.6)) puti(spre + "s", (long)r.range(1, 6)); if (r.chance(0.3)) put(spre + "omega", pick({0, 0.7, 0.9})); if (r.chance(0.3)) putb(spre + "smoothing", r.chance(0.5)); if (r.chance(0.3)) putb(spre + "replacement", r.chance(0.5)); }
         if (solver == "richardson" && r.chance(0.4)) put(spre + "damping", pick({1, 0.8, 0.5}));
         if (solver != "preonly" && r.chance(0.2)) putb(spre + "ns_search", r.chance(0.5));
+        if (solver != "preonly" && r.chance(0.15)) put(spre + "abstol", pick({1e-12, 1e-6, 1e-2}));      // the stopping test is max(tol*|f|, abstol)
     }
     return desc;
 }
